@@ -13,6 +13,7 @@ CONSTANTS
   DsHist = 0
   DsOps = {}
   NMon = 0
+  Neg = FALSE
   Shape = "sorted"
 SYMMETRY Sym
 INVARIANT TypeOK
